@@ -44,6 +44,7 @@ pub fn run(rep: &mut Report, tier: &str, seed: u64) {
         };
         for ti in 0..trees_per {
             let source = gen_source(&mut r, ti == 1, false);
+            let source = if ti == 0 { crate::props::common::wide_source_for(&loaded.program).unwrap_or(source) } else { source };
             let (info, mi) = export(&loaded.file, &source);
             drv.ask(&sexp::tagged("set-tree", vec![info.to_sexp(&source.src)]));
             rep.count_n("regex-oracle-questions", table.rx_asked + table.rp_asked);
@@ -53,7 +54,25 @@ pub fn run(rep: &mut Report, tier: &str, seed: u64) {
             let mut results = Vec::new();
             for lazy in [false, true] {
                 let cfg = RunCfg { lazy, globals: globals.clone(), outer_globals: vec![], debug: None, cancel_at: None };
+                if let Ok(path) = std::env::var("TSG_CASE_LOG") {
+                    // debugging aid: the case about to run, so that a stall can be attributed
+                    let _ = std::fs::write(&path, json!({"pi": pi, "ti": ti, "lazy": lazy, "tsg": loaded.program.text, "source": source.src,
+                        "globals": format!("{:?}", globals.iter().map(|g| (g.0.clone(), format!("{}", g.1))).collect::<Vec<_>>())}).to_string());
+                }
                 let ir = run_impl(&loaded.file, &source.tree, &source.src, &info, &cfg);
+                if ir.polls > crate::props::runner::MODEL_POLL_LIMIT {
+                    // the executable model is quadratic in the size of the run: very large runs are decided by the direct
+                    // strict-vs-lazy oracle below only (as in `Runner::check_mode`)
+                    rep.count("model-comparison-skipped:run-too-large");
+                    let class = outcome_class(&ir.outcome);
+                    if class == "panic" {
+                        rep.fail("impl-panic", &format!("C02 {} execution panics (model not run: large case)", if lazy { "lazy" } else { "strict" }), true,
+                            json!({"tsg": loaded.program.text, "source": source.src, "mode": if lazy { "lazy" } else { "strict" }}));
+                    }
+                    rep.count(&format!("{}:{}", if lazy { "lazy" } else { "strict" }, class));
+                    results.push((class, ir));
+                    continue;
+                }
                 let model = run_model(&mut drv, &mut table, &mi, &cfg);
                 let class = outcome_class(&ir.outcome);
                 rep.count(&format!("{}:{}", if lazy { "lazy" } else { "strict" }, class));
@@ -61,6 +80,7 @@ pub fn run(rep: &mut Report, tier: &str, seed: u64) {
                 let replay = json!({"tsg": loaded.program.text, "source": source.src, "mode": mode,
                     "implementation": impl_as_result(&ir).pretty(), "model": model.pretty()});
                 match result_parts(&model) {
+                    None if model.as_atom() == Some("model-too-slow") => rep.count("model-comparison-given-up:time-budget"),
                     None => rep.fail("disagreement", &format!("C02 {} model did not return a result: {}", mode, model.to_text().chars().take(60).collect::<String>()), false, replay),
                     Some((mo, mg, _)) => {
                         let mclass = outcome_class(mo);
